@@ -155,7 +155,7 @@ def last_unfinished(journal):
 def death_kind(code, errtext):
     if code == 3 or "WATCHDOG" in errtext:
         return "hang", "real-time-watchdog"
-    for pat, sig in [("stack overflow", "stack-overflow"), ("concurrent map writes", "concurrent-map-writes"),
+    for pat, sig in [("stack overflow", "stack-overflow"), ("stack exceeds", "stack-overflow"), ("concurrent map writes", "concurrent-map-writes"),
                      ("concurrent map read and map write", "concurrent-map-read-write"),
                      ("concurrent map iteration and map write", "concurrent-map-iteration-write"),
                      ("all goroutines are asleep", "go-deadlock"), ("SIGSEGV", "sigsegv"), ("unexpected fault address", "fault-address"),
@@ -225,6 +225,8 @@ def run_check(prop, tier):
             s.start(worker, base_env)
         hard_deadline = time.time() + T["budget_s"] * 3 + 120
         death_violations = []
+        death_counts = {}
+        unconfirmed = []
         harness_trouble = []
         live = list(shards)
         while live:
@@ -241,7 +243,8 @@ def run_check(prop, tier):
                     live.remove(s)
                     continue
                 # the worker died or hung: which run?
-                err = open(s.errf).read()[-20000:]
+                raw = open(s.errf, errors="replace").read()
+                err = raw[:20000] + "\n...\n" + raw[-20000:] if len(raw) > 40000 else raw
                 cur = last_unfinished(s.journal)
                 if code == 2 and "HARNESS" in err:
                     harness_trouble.append("shard %d: %s" % (s.idx, err[-2000:]))
@@ -253,14 +256,16 @@ def run_check(prop, tier):
                     continue
                 kind, sig = death_kind(code, err)
                 world, idx, run_seed = cur
-                log("worker shard %d %s (%s) during world=%s idx=%d run_seed=%d; confirming" % (s.idx, kind, sig, world, idx, run_seed))
-                v = confirm_death(worker, base_env, tmp, prop, world, idx, kind, sig, s)
-                if v is None:
-                    harness_trouble.append("shard %d: %s at %s/%d did not reproduce when run alone (%s)" % (s.idx, kind, world, idx, sig))
-                else:
-                    death_violations.append(v)
+                death_counts[(kind, sig)] = death_counts.get((kind, sig), 0) + 1
+                if death_counts[(kind, sig)] <= 2:
+                    log("worker shard %d %s (%s) during world=%s idx=%d run_seed=%d; confirming" % (s.idx, kind, sig, world, idx, run_seed))
+                    v = confirm_death(worker, base_env, tmp, prop, world, idx, kind, sig, s)
+                    if v is None:
+                        unconfirmed.append("shard %d: %s at %s/%d did not reproduce when run alone (%s)" % (s.idx, kind, world, idx, sig))
+                    else:
+                        death_violations.append(v)
                 s.deaths += 1
-                if s.deaths > 5 or time.time() > hard_deadline:
+                if s.deaths > 3 or sum(death_counts.values()) > 12 or time.time() > hard_deadline:
                     live.remove(s)
                     continue
                 s.start(worker, base_env, resume="%s:%d" % (world, idx))
@@ -314,7 +319,13 @@ def run_check(prop, tier):
                 continue
             seen_sig.add(key)
             final_viol.append((v["violation"], v["replay"]))
+        if unconfirmed and not death_violations:
+            # a death that does not repeat when its run is executed alone is not a verdict
+            harness_trouble += unconfirmed
         for v, rp in death_violations:
+            if (v["class"], v["sig"]) in seen_sig:
+                continue
+            seen_sig.add((v["class"], v["sig"]))
             k = is_known(known, prop, v["class"], v["sig"])
             if k:
                 key = k["class"] + " " + k["sig"]
@@ -358,7 +369,7 @@ def run_check(prop, tier):
             log("KNOWN-FINDING: property=%s %s [%s %s] seen %d times" % (prop, what, cls, sig, n))
         if final_viol:
             for v, rp in final_viol:
-                log("  %s [%s] at op %s: %s" % (v["class"], v["sig"], v.get("op_index"), (v.get("detail") or "")[:600]))
+                log("  %s [%s] at op %s: %s" % (v["class"], v["sig"], v.get("op_index"), " ".join((v.get("detail") or "").split())[:500]))
                 log("VIOLATION property=%s replay=%s" % (prop, rp))
             return 1
         if harness_trouble:
@@ -384,7 +395,7 @@ def confirm_death(worker, base_env, tmp, prop, world, idx, kind, sig, shard):
                        cwd=tmp, preexec_fn=limit_mem)
     if r.returncode == 0:
         return None
-    kind2, sig2 = death_kind(r.returncode, r.stderr[-20000:])
+    kind2, sig2 = death_kind(r.returncode, r.stderr[:20000] + r.stderr[-20000:])
     if kind2 != kind:
         return None
     plan = None
@@ -419,7 +430,7 @@ def run_replay(path):
         if r.returncode in (0, 1):
             return r.returncode
         if rp["violation"]["class"] in ("process-death", "hang"):
-            kind, sig = death_kind(r.returncode, r.stderr[-20000:])
+            kind, sig = death_kind(r.returncode, r.stderr[:20000] + r.stderr[-20000:])
             if kind == rp["violation"]["class"]:
                 log("REPLAY worker %s again (%s)" % (kind, sig))
                 log("VIOLATION property=%s replay=%s" % (prop, path))
